@@ -134,6 +134,28 @@ def rule_anchor(ctx: RuleContext, p: Program, rid: str) -> None:
         raise AnalysisError(f'ANCHOR: only {n} insertion sites found (>= 15 confirmed by hand)')
 
 
+def rule_anchor_null(ctx: RuleContext, p: Program, rid: str) -> None:
+    ctx.rule(rid, 'no store insertion / splice / removal in a Borrowed document is anchored at a possibly-None token (an Optional '
+                  'result of get_prev / get_next / a helper that was not tested): insert_before(None, ...) silently inserts at the very '
+                  'beginning of the document (effect / ownership interpretation of every mutating entry point)')
+    from ..absint import EffectInterp
+    from . import effects
+    it = EffectInterp(p)
+    ents = effects.enumerate_entries(p, it, ctx.tier)
+    n = 0
+    for g in ('set', 'call', 'wrapper_call'):
+        for e in ents[g]:
+            e.run()
+            n += 1
+    for (fn, stmt), meth in sorted(it.null_anchors.items()):
+        ctx.fail(rid, fn, stmt, f'`{stmt}` calls token_store.{meth} with an anchor that may be None: at the end (or start) of a document the '
+                 f'tokens land at position 0 of the store instead of next to the edited model', '')
+    ctx.ok(rid, f'{n} mutating entry points', f'{len(it.null_anchors)} possibly-None anchors')
+    ctx.ok(rid, 'store mutator call sites reached', 'anchors are tokens', nontrivial=False)
+    if n < 300:
+        raise AnalysisError(f'ANCHOR-NULL: only {n} entries analysed')
+
+
 def rule_del_range(ctx: RuleContext, p: Program, rid: str) -> None:
     ctx.rule(rid, '_del_tokens(start, stop): for a deletion at the head that leaves later items, the range is '
                   '[items[start].first_token, prev(items[stop].first_token)] (the following separator goes, the preceding one '
@@ -197,14 +219,15 @@ def rule_del_range(ctx: RuleContext, p: Program, rid: str) -> None:
 
 def run(ctx: RuleContext, p: Program) -> None:
     tcs = build_tree_classes(p)
-    seps.rule_sep_prov(ctx, p, 'SEP-PROV')
-    rule_opt_sib(ctx, p, 'OPT-SIB')
-    gen.rule_pivot(ctx, p, tcs, 'PIVOT')
+    ctx.try_rule(seps.rule_sep_prov, p, 'SEP-PROV')
+    ctx.try_rule(rule_opt_sib, p, 'OPT-SIB')
+    ctx.try_rule(gen.rule_pivot, p, tcs, 'PIVOT')
     ctx.require_min('PIVOT', 80)
-    rule_anchor(ctx, p, 'ANCHOR')
-    rule_del_range(ctx, p, 'DEL-RANGE')
+    ctx.try_rule(rule_anchor, p, 'ANCHOR')
+    ctx.try_rule(rule_anchor_null, p, 'ANCHOR-NULL')
+    ctx.try_rule(rule_del_range, p, 'DEL-RANGE')
     from . import orient
-    orient.rule_orient(ctx, p, 'ORIENT')
+    ctx.try_rule(orient.rule_orient, p, 'ORIENT')
     ctx.not_decided += ['full separator arithmetic for every (index, arity, position)', 'store block boundaries (C07)',
                         'identity of tokens outside the edit window (runtime)']
     ctx.assumptions += ['TokenStore.insert_after/insert_before/remove/splice semantics (C07)']
